@@ -15,7 +15,9 @@ Q4  injectivity inside a mapping, from the shape of the computation: stride_reg 
     decomposition: the triple determines X) and the alphabet has no repeated letter; numeric_reg
     prints an affine slope-1 value over a zero-padded template wide enough for the largest value;
     hl_reg prints affine slope-1 values whose ranges are disjoint.
-Not decided: injectivity inside the N-number / JA numeral systems.
+    Every value of the N / JA decoders (and of n_letters / n_letter) that is both divided and reduced modulo a
+    constant uses the same constant for both (positional decomposition; after seed C14-s3).
+Not decided: full injectivity inside the N-number / JA numeral systems (prefix-freeness of the suffix languages).
 """
 import json
 import os
@@ -333,6 +335,29 @@ def run(prog, rep, tier):
         rep.check(worst is None, 'Q4-single-digits', name + '#digits', fns[name]['file'],
                   'a position of the %s numeral system can print %s, not a single digit: two addresses then share a registration (e.g. N10 = N1+0)' % (name, A.show_val(worst) if worst else ''),
                   sample={'fn': name, 'digit_positions': len(seen)})
+    # quotient / remainder pairs of the numeral decoders: x -> (x / a, x % b) is a positional decomposition only for a = b
+    divrem = {}
+    for name in ('n_reg', 'ja_reg'):
+        E5 = runner.make_engine(prog, K=8)
+
+        def sh(E_, st, frame, bb, idx, stmt, v, divrem=divrem):
+            rv = stmt['rv']
+            if rv['k'] != 'bin' or rv['op'] not in ('Div', 'Rem') or 'data::tail::' not in frame.body['name']:
+                return
+            a = E_.scalar(st, E_.operand(st, frame, rv['l']))
+            b_ = E_.scalar(st, E_.operand(st, frame, rv['r']))
+            if a[0] == 'I' and b_[0] == 'I' and b_[1] == b_[2] and a[4] is not None and a[1] != a[2]:
+                divrem.setdefault((frame.body['name'].split('::')[-1], a[4]), {}).setdefault(rv['op'], set()).add(b_[1])
+        E5.stmt_hook = sh
+        runner.run_entry(E5, fns[name], quiet=True)
+    npairs = 0
+    for (fn_, x), ops in sorted(divrem.items(), key=lambda kv: (kv[0][0], str(kv[0][1]))):
+        if 'Div' in ops and 'Rem' in ops:
+            npairs += 1
+            rep.check(ops['Div'] == ops['Rem'] and len(ops['Div']) == 1, 'Q4-positional', '%s#div-rem[%s]' % (fn_, '/'.join(str(c_) for c_ in sorted(ops['Div'] | ops['Rem']))), f_tail['file'],
+                      'in %s the same value is divided by %s and reduced modulo %s: (x / a, x %% b) with a != b maps different addresses to the same characters'
+                      % (fn_, sorted(ops['Div']), sorted(ops['Rem'])), sample={'fn': fn_, 'radix': sorted(ops['Div'])} if npairs <= 3 else None)
+    rep.floor('quotient / remainder pairs in the numeral decoders', npairs, 8)
     # ---- Q3
     rr = sorted(rows, key=lambda r: (r[1], r[2]))
     for i in range(len(rr) - 1):
